@@ -3,6 +3,7 @@ package c15
 import (
 	"encoding/json"
 	"fmt"
+	"net/http"
 	"strings"
 	"sync"
 	"testing"
@@ -31,12 +32,18 @@ type WCase struct {
 	Clients []WClient `json:"clients"`
 	Events  []WEv     `json:"events"`
 	Late    []WClient `json:"late"` // clients that join after the events (history replay over the wire)
+	// Bad: requests to the monitor endpoints whose WebSocket handshake fails (a plain GET, or a
+	// wrong protocol version), made before the events; Flood: further dispatches per mailbox after
+	// the generated events (more than the 100 events a listener's queue holds).
+	Bad   []WClient `json:"bad,omitempty"`
+	Flood int       `json:"flood,omitempty"`
 }
 
 var propWS = hx.Prop[WCase]{
 	ID: pid, Name: "ws",
 	Rule: "real gorilla WebSocket clients against the httptest server around the real router (v1 and v2 monitor endpoints, with and without " +
-		"mailbox filter) join a hub holding one marker message, then 5-60 dispatches/deletes run while some clients drop their connection " +
+		"mailbox filter) join a hub holding one marker message, 0-2 further requests to those endpoints fail their handshake (plain GET, wrong " +
+		"protocol version), then 5-60 dispatches/deletes (in half of the cases followed by 110-130 more dispatches per mailbox) run while some clients drop their connection " +
 		"after a generated number of events; late joiners connect afterwards; oracle: every client that stays receives exactly its " +
 		"expected sequence (replay, then every matching event once, in order; v1 = stored only), late joiners exactly the retained " +
 		"history, Hub.Sync returns within 20 s; non-trivial = >=2 clients, one of which disconnects while events are still flowing",
@@ -52,7 +59,9 @@ var propWS = hx.Prop[WCase]{
 			Events: rapid.SliceOfN(rapid.Custom(func(t *rapid.T) WEv {
 				return WEv{Box: rapid.IntRange(0, 2).Draw(t, "box"), Del: rapid.IntRange(0, 4).Draw(t, "del") == 0}
 			}), 5, 60).Draw(t, "events"),
-			Late: rapid.SliceOfN(cg, 1, 2).Draw(t, "late"),
+			Late:  rapid.SliceOfN(cg, 1, 2).Draw(t, "late"),
+			Bad:   rapid.SliceOfN(cg, 0, 2).Draw(t, "bad"),
+			Flood: rapid.SampledFrom([]int{0, 0, 110, 130}).Draw(t, "flood"),
 		}
 	},
 	Run: runWS,
@@ -214,6 +223,30 @@ func runWS(c WCase) *hx.Outcome {
 			return o
 		}
 	}
+	for i, spec := range c.Bad {
+		path := fmt.Sprintf("/api/v%d/monitor/messages", spec.V)
+		if spec.Filter > 0 {
+			path += "/" + boxes[spec.Filter-1]
+		}
+		req, _ := http.NewRequest("GET", w.HTTP.URL+path, nil)
+		if i%2 == 1 {
+			// looks like a handshake, but asks for a protocol version the server does not speak
+			req.Header.Set("Connection", "Upgrade")
+			req.Header.Set("Upgrade", "websocket")
+			req.Header.Set("Sec-WebSocket-Version", "7")
+			req.Header.Set("Sec-WebSocket-Key", "dGhlIHNhbXBsZSBub25jZQ==")
+		}
+		resp, err := http.DefaultClient.Do(req)
+		if err != nil {
+			o.Failf(pid+":harness", "plain GET %s: %v", path, err)
+			return o
+		}
+		if resp.StatusCode == http.StatusSwitchingProtocols {
+			o.Failf(pid+":harness", "GET %s without a valid handshake was upgraded", path)
+		}
+		resp.Body.Close()
+		o.Class("a monitor request whose handshake fails")
+	}
 	// clients whose filter hides the marker: make sure their registration was processed
 	time.Sleep(20 * time.Millisecond)
 	if !syncHub(w.Hub, hx.ReplyTimeout) {
@@ -248,8 +281,32 @@ func runWS(c WCase) *hx.Outcome {
 			}
 		}
 	}
+	if c.Flood > 0 {
+		o.Class("more than 100 events per mailbox")
+		// Dispatch blocks once the hub's own queue is full, i.e. when the hub has stopped: bounded
+		flooded := make(chan struct{})
+		go func() {
+			defer close(flooded)
+			for n := 0; n < c.Flood; n++ {
+				for b := range boxes {
+					e := dispatch(b)
+					for _, cl := range clients {
+						if matches(cl, e) {
+							cl.expected = append(cl.expected, e)
+						}
+					}
+				}
+			}
+		}()
+		select {
+		case <-flooded:
+		case <-time.After(hx.ReplyTimeout):
+			o.Failf(pid+":hub-wedged", "the hub stopped taking events within a flood of %d per mailbox: Dispatch has been blocked for %v although every client is reading or has disconnected (failed handshakes before: %d)", c.Flood, hx.ReplyTimeout, len(c.Bad))
+			return o
+		}
+	}
 	if !syncHub(w.Hub, hx.ReplyTimeout) {
-		o.Failf(pid+":hub-wedged", "Hub.Sync did not return within %v although every client is reading or has disconnected", hx.ReplyTimeout)
+		o.Failf(pid+":hub-wedged", "Hub.Sync did not return within %v although every client is reading or has disconnected (failed handshakes before: %d)", hx.ReplyTimeout, len(c.Bad))
 		return o
 	}
 	droppers, stayers := 0, 0
